@@ -176,3 +176,177 @@ impl TimeZoneProvider for NoZones {
         Ok(None)
     }
 }
+
+// ---- value construction / observation through the public API only ----
+
+use crate::refmodel::civil::{civil_from_days, days_from_civil};
+use temporal_rs::{Calendar, PlainDate, PlainDateTime, PlainTime};
+
+pub const DAY_NS: i128 = 86_400_000_000_000;
+
+pub fn split_ns_of_day(ns: i128) -> (u8, u8, u8, u16, u16, u16) {
+    debug_assert!((0..DAY_NS).contains(&ns));
+    let n = (ns % 1000) as u16;
+    let us = ((ns / 1_000) % 1000) as u16;
+    let ms = ((ns / 1_000_000) % 1000) as u16;
+    let s = ((ns / 1_000_000_000) % 60) as u8;
+    let mi = ((ns / 60_000_000_000) % 60) as u8;
+    let h = (ns / 3_600_000_000_000) as u8;
+    (h, mi, s, ms, us, n)
+}
+
+pub fn ptime(ns_of_day: i128) -> TemporalResult<PlainTime> {
+    let (h, mi, s, ms, us, n) = split_ns_of_day(ns_of_day);
+    PlainTime::try_new(h, mi, s, ms, us, n)
+}
+
+pub fn ptime_ns(t: &PlainTime) -> i128 {
+    ((t.hour() as i128 * 60 + t.minute() as i128) * 60 + t.second() as i128) * 1_000_000_000
+        + t.millisecond() as i128 * 1_000_000
+        + t.microsecond() as i128 * 1_000
+        + t.nanosecond() as i128
+}
+
+/// PlainDateTime (ISO calendar) from "local nanoseconds since 1970-01-01T00:00 wall clock".
+pub fn pdt_from_local(local_ns: i128) -> TemporalResult<PlainDateTime> {
+    let days = local_ns.div_euclid(DAY_NS);
+    let (h, mi, s, ms, us, n) = split_ns_of_day(local_ns.rem_euclid(DAY_NS));
+    let (y, m, d) = civil_from_days(days as i64);
+    PlainDateTime::try_new(y as i32, m, d, h, mi, s, ms, us, n, Calendar::default())
+}
+
+pub fn pdt_local_ns(dt: &PlainDateTime) -> i128 {
+    days_from_civil(dt.iso_year() as i64, dt.iso_month(), dt.iso_day()) as i128 * DAY_NS
+        + ((dt.hour() as i128 * 60 + dt.minute() as i128) * 60 + dt.second() as i128) * 1_000_000_000
+        + dt.millisecond() as i128 * 1_000_000
+        + dt.microsecond() as i128 * 1_000
+        + dt.nanosecond() as i128
+}
+
+pub fn pdate_from_days(k: i64) -> TemporalResult<PlainDate> {
+    let (y, m, d) = civil_from_days(k);
+    PlainDate::try_new(y as i32, m, d, Calendar::default())
+}
+
+pub fn pdate_days(d: &PlainDate) -> i64 {
+    days_from_civil(d.iso_year() as i64, d.iso_month(), d.iso_day())
+}
+
+/// Exact total of the day + time fields of a duration in nanoseconds (a day counting 24 h).
+pub fn dur_time_total_ns(d: &Duration) -> i128 {
+    let v = dur_fields(d);
+    v[3] as i128 * DAY_NS
+        + v[4] as i128 * 3_600_000_000_000
+        + v[5] as i128 * 60_000_000_000
+        + v[6] as i128 * 1_000_000_000
+        + v[7] as i128 * 1_000_000
+        + v[8] as i128 * 1_000
+        + v[9] as i128
+}
+
+pub fn fmt_ns_of_day(ns: i128) -> String {
+    let (h, mi, s, ms, us, n) = split_ns_of_day(ns);
+    format!("{h:02}:{mi:02}:{s:02}.{ms:03}{us:03}{n:03}")
+}
+
+// ---- a tiny reader for the *canonical output* forms (used to decode formatted values) ----
+
+fn digits(b: &[u8], i: &mut usize, n: usize) -> Option<i64> {
+    if *i + n > b.len() {
+        return None;
+    }
+    let mut v = 0i64;
+    for k in 0..n {
+        let c = b[*i + k];
+        if !c.is_ascii_digit() {
+            return None;
+        }
+        v = v * 10 + (c - b'0') as i64;
+    }
+    *i += n;
+    Some(v)
+}
+
+/// Reads `[+-YY]YYYY-MM-DD` at `i`. Returns days since epoch.
+pub fn read_date(b: &[u8], i: &mut usize) -> Option<i64> {
+    let y = if *i < b.len() && (b[*i] == b'+' || b[*i] == b'-') {
+        let neg = b[*i] == b'-';
+        *i += 1;
+        let v = digits(b, i, 6)?;
+        if neg {
+            -v
+        } else {
+            v
+        }
+    } else {
+        digits(b, i, 4)?
+    };
+    if b.get(*i) != Some(&b'-') {
+        return None;
+    }
+    *i += 1;
+    let m = digits(b, i, 2)?;
+    if b.get(*i) != Some(&b'-') {
+        return None;
+    }
+    *i += 1;
+    let d = digits(b, i, 2)?;
+    if !(1..=12).contains(&m) || d < 1 || d > crate::refmodel::civil::dim(y, m as u8) as i64 {
+        return None;
+    }
+    Some(days_from_civil(y, m as u8, d as u8))
+}
+
+/// Reads `HH:MM[:SS[.f{1,9}]]` at `i`. Returns (ns of day, number of fraction digits or -1 if no seconds).
+pub fn read_time(b: &[u8], i: &mut usize) -> Option<(i128, i32)> {
+    let h = digits(b, i, 2)?;
+    if b.get(*i) != Some(&b':') {
+        return None;
+    }
+    *i += 1;
+    let mi = digits(b, i, 2)?;
+    let mut ns = (h as i128 * 60 + mi as i128) * 60_000_000_000;
+    if h > 23 || mi > 59 {
+        return None;
+    }
+    if b.get(*i) != Some(&b':') {
+        return Some((ns, -1));
+    }
+    *i += 1;
+    let s = digits(b, i, 2)?;
+    if s > 59 {
+        return None;
+    }
+    ns += s as i128 * 1_000_000_000;
+    if b.get(*i) != Some(&b'.') {
+        return Some((ns, 0));
+    }
+    *i += 1;
+    let mut nd = 0;
+    let mut frac = 0i128;
+    while *i < b.len() && b[*i].is_ascii_digit() && nd < 9 {
+        frac = frac * 10 + (b[*i] - b'0') as i128;
+        nd += 1;
+        *i += 1;
+    }
+    if nd == 0 {
+        return None;
+    }
+    for _ in nd..9 {
+        frac *= 10;
+    }
+    Some((ns + frac, nd))
+}
+
+/// Reads `date T time`, returns (local ns since epoch, fraction digits, index after).
+pub fn read_datetime(s: &str) -> Option<(i128, i32, usize)> {
+    let b = s.as_bytes();
+    let mut i = 0;
+    let days = read_date(b, &mut i)?;
+    if b.get(i) != Some(&b'T') {
+        return None;
+    }
+    i += 1;
+    let (t, nd) = read_time(b, &mut i)?;
+    Some((days as i128 * DAY_NS + t, nd, i))
+}
